@@ -151,7 +151,9 @@ AfterCall(st, ret, noreturn, env) ==
 (***************************************************************************)
 (* Jumps of a block (F3 - F7)                                              *)
 (***************************************************************************)
-RunJmps(fn, blk, st, env) ==
+\* (renum: see StepBlock; it is applied again in front of a call because an implicit RAM operand of the jump itself
+\*  - a read - may have been observed since)
+RunJmps(fn, blk, st, env, renum(_)) ==
   LET js == blk.jmps
       RECURSIVE go(_, _)
       go(i, s) ==
@@ -168,11 +170,11 @@ RunJmps(fn, blk, st, env) ==
                      s1 == Emit(r.st, CtlObs("indjmp", r.v, ""))
                      t == IF IsPoison(r.v) THEN "" ELSE HintTarget(fn, j, r.v)
                  IN IF t = "" THEN Halt(s1, "indjmp") ELSE Goto(s1, t)
-            [] j.m = "CALL" -> AfterCall(Emit(s, StateObs("call", Poison, j.t, s, env)), j.ret, NoReturn(j.t, env), env)
+            [] j.m = "CALL" -> AfterCall(Emit(renum(s), StateObs("call", Poison, j.t, s, env)), j.ret, NoReturn(j.t, env), env)
             [] j.m = "CALLIND" ->
                  LET r == P!ReadVarnode(j.v, s, env)
-                 IN AfterCall(Emit(r.st, StateObs("callind", r.v, "", r.st, env)), j.ret, FALSE, env)
-            [] j.m = "CALLOTHER" -> AfterCall(Emit(s, StateObs("callother", Poison, "", s, env)), j.ret, FALSE, env)
+                 IN AfterCall(Emit(renum(r.st), StateObs("callind", r.v, "", r.st, env)), j.ret, FALSE, env)
+            [] j.m = "CALLOTHER" -> AfterCall(Emit(renum(s), StateObs("callother", Poison, "", s, env)), j.ret, FALSE, env)
             [] j.m = "RETURN" ->
                  LET r == P!ReadVarnode(j.v, s, env)
                  IN Halt(Emit(r.st, StateObs("return", r.v, "", r.st, env)), "return")
@@ -201,7 +203,7 @@ StepBlock(fn, st, env, renum(_)) ==
   LET i == BlockIdx(fn.blocks, st.pc.t)
   IN IF i = 0 THEN DeadEnd(st, env)                                        \* F2
      ELSE LET r == RunDefsC(fn.blocks[i].defs, st, env)
-              s == IF r.ok THEN RunJmps(fn, fn.blocks[i], renum(r.st), env) ELSE OutClass(r.st)
+              s == IF r.ok THEN RunJmps(fn, fn.blocks[i], renum(r.st), env, renum) ELSE OutClass(r.st)
           IN IF AllDefined(s.obs) THEN s ELSE OutClass(s)                  \* C2
 
 \* Initial state: regs = function base register name -> bit vector
